@@ -41,6 +41,16 @@ func init() {
 
 func c14Tune(r *core.Rand, k *ChainKnobs) {
 	g := &k.Gen
+	// Tiny-stake worlds (own PRNG): thresholds of 0-3 base units and non-anchor escrows a few base
+	// units above them, i.e. around and below the number of base units per unit of voting power.
+	if tr := core.NewRand(core.Derive(core.Hash64([]byte(g.Salt)), "c14-tiny-stake", 0)); tr.Chance(1, 5) {
+		g.ThresholdEntity, g.ThresholdNode = uint64(tr.Range(0, 3)), uint64(tr.Range(0, 3))
+		need := g.ThresholdEntity + 2*g.ThresholdNode
+		for i := g.Anchors; i < len(g.EntityEscrow); i++ {
+			g.EntityEscrow[i] = need + uint64(tr.Pick([]int{3, 2, 1})*tr.Range(0, 12))
+		}
+		g.BypassStake = false
+	}
 	g.Runtime = true
 	g.ComputeNodes = r.Range(2, 6)
 	// Genesis compute nodes are extra nodes of the entities (round robin); each carries the global
